@@ -239,6 +239,22 @@ func evalC15(c c15Case, o *Obs) error {
 			if err != nil {
 				return fmt.Errorf("NewKeyFromString(%s) failed: %v", src.r.String(), err)
 			}
+			if op.I&1 == 1 && !src.zeroed {
+				// only a child of the parsed key is kept; the parsed key itself is forgotten (never erased) and collected:
+				// the child is a value of its own and stays what it is
+				if cr, rerr := src.r.child(1); rerr == nil {
+					ck, err := k.Child(1)
+					if err != nil {
+						return fmt.Errorf("key #%d re-parsed: Child(1) failed: %v", a, err)
+					}
+					k = nil
+					pool = append(pool, &c15Entry{k: ck, r: cr, origin: fmt.Sprintf("NewKeyFromString(#%d).Child(1)@%d, the parsed key forgotten", a, step), rel: []int{a}})
+					src.rel = append(src.rel, len(pool)-1)
+					wantGC = true
+					o.Class("C15:child-of-a-forgotten-parsed-key")
+					continue
+				}
+			}
 			cp := *src.r
 			pool = append(pool, &c15Entry{k: k, r: &cp, origin: fmt.Sprintf("NewKeyFromString(#%d)@%d", a, step), rel: []int{a}})
 			src.rel = append(src.rel, len(pool)-1)
@@ -524,7 +540,7 @@ func genC15(t *rapid.T) c15Case {
 		case 0:
 			op.Op, op.Seed, op.Net = "newmaster", genBytes(t, "seed", 16, 32), genNet(t)
 		case 1, 2:
-			op.Op = "fromstring"
+			op.Op, op.I = "fromstring", uint32(rapid.IntRange(0, 3).Draw(t, "forget"))
 		case 3:
 			op.Op, op.I, op.Net = "newext", uint32(rapid.IntRange(0, 3).Draw(t, "newextflags")), genNet(t)
 			if rapid.IntRange(0, 3).Draw(t, "imported") == 0 {
